@@ -211,7 +211,7 @@ def mutate(rng, text):
 def plan(tier, rng, sl, nslices, stats):
     cfg = TIERS[tier]
     for _ in range(cfg["random"]):
-        ast = rs.gen_ast(rng, rng.choice([1, 2, 3, 4]))
+        ast = rs.gen_ast(rng, rng.choice([1, 2, 3, 4, 4, 5, 6]))
         text = rs.render(ast, rng, redundant=rng.choice([0, 0, 0.3]))
         ast2 = rs.gen_ast(rng, rng.choice([0, 1, 2]))
         yield {"text": text, "text2": rs.render(ast2, rng), "kind": "well"}
@@ -285,6 +285,9 @@ def run_case(c, stats):
     syms = sorted(ref.alpha)[:3]
     for i, wd in enumerate(rn.all_words(syms + ["zz_foreign"], 3 if len(syms) <= 2 else 2)):
         call(r.accepts, values.word_form(wd, i))
+    import random as _random
+    for wd in ref.sample_words(_random.Random(len(text)), 5, 10):
+        call(r.accepts, list(wd))          # long words along random walks of the reference automaton
     call(r.to_epsilon_nfa)
     call(r.accepts, syms[:1])          # again after the conversion (cached automaton)
     call(r.to_cfg)
